@@ -214,6 +214,50 @@ func cmdCheck(args []string) int {
 	for _, v := range bviol {
 		violations = append(violations, v)
 	}
+	// thorough: contract conformance of the proved functions on the real code (bounded, not counted as proved): every
+	// function whose inputs are plain values is run against its contract compiled to Go over the replay input space.
+	// A violation here contradicts the proof (engine or dependency-contract unsoundness, or a clause the generator
+	// does not check) and is reported as a violation with the failing input.
+	var conformance []map[string]any
+	if tier == "thorough" {
+		seenFn := map[string]bool{}
+		var todo []*OblResult
+		for _, r := range out.Results {
+			if r.Gen == nil || seenFn[r.Obl.Fn] || replayCache[r.Obl.Fn] != nil {
+				continue
+			}
+			seenFn[r.Obl.Fn] = true
+			todo = append(todo, r)
+		}
+		type cres struct {
+			r  *OblResult
+			rr ReplayResult
+		}
+		ch := make(chan cres, len(todo))
+		sem := make(chan struct{}, 4)
+		for _, r := range todo {
+			sem <- struct{}{}
+			go func() { defer func() { <-sem }(); ch <- cres{r, concreteReplay(cfg, r, "")} }()
+		}
+		for range todo {
+			x := <-ch
+			if !x.rr.Tried {
+				continue
+			}
+			conformance = append(conformance, map[string]any{"function": x.r.Obl.Fn, "cases_ran_exhaustive": x.rr.Cases, "violated": x.rr.Confirmed, "note": x.rr.Why, "label": "bounded (contract compiled to Go, run on the real function; not counted as proved)"})
+			if x.rr.Confirmed {
+				dir := filepath.Join(cfg.Verif, "replays")
+				_ = os.MkdirAll(dir, 0o755)
+				path := filepath.Join(dir, fmt.Sprintf("%s-conformance-%s.json", prop, oblHash(x.r.Obl.Fn)))
+				d, _ := json.MarshalIndent(map[string]any{"property": prop, "function": x.r.Obl.Fn, "failing_input": x.rr.Input, "violated_on_real_code": x.rr.Violated, "replay_test": x.rr.Test, "replayed_on_real_code": true,
+					"note": "the real function violates a clause of its contract on this input although every obligation of the function was discharged: the proof rests on something false (assumed dependency contract, engine model) or the clause is not covered by an obligation"}, "", " ")
+				_ = os.WriteFile(path, d, 0o644)
+				failed++
+				violations = append(violations, fmt.Sprintf("VIOLATION property=%s replay=%s conformance=%s violated=%s replayed-on-real-code", prop, path, x.r.Obl.Fn, x.rr.Violated))
+			}
+		}
+		sort.Slice(conformance, func(i, j int) bool { return conformance[i]["function"].(string) < conformance[j]["function"].(string) })
+	}
 	for _, v := range out.Vacuous {
 		fmt.Printf("ENGINE-ERROR: vacuous assumptions in %s (a planted assert-false at its exits is provable)\n", v)
 	}
@@ -260,6 +304,7 @@ func cmdCheck(args []string) int {
 		"obligations_known_finding": knownN,
 		"binding_failures":         out.BindErrs,
 		"bounded_standins":         bounded,
+		"contract_conformance_runs": conformance,
 		"samples":                  samples,
 		"packages":                 pkgs,
 		"vacuity_guard":            fmt.Sprintf("planted assert-false at the exits of each of the %d functions must not be provable: %d vacuous", len(out.Functions), len(out.Vacuous)),
